@@ -131,6 +131,16 @@ impl InferenceRules {
     ///
     /// Returns [`Err`] if any of the inference rules error.
     pub fn infer(&mut self, value: &TCBoxedVal, state: &mut TypeCheckerState) -> Result<()> {
+        #[cfg(smlxl_storage_layout_extractor_verif)]
+        {
+            let rules: Vec<&RulesItem> =
+                crate::verif_hooks::permute("tc.rules", self.rules.iter().collect());
+            for rule in rules {
+                rule.infer(value, state)?;
+            }
+            return Ok(());
+        }
+        #[allow(unreachable_code)]
         for rule in &self.rules {
             rule.infer(value, state)?;
         }
